@@ -414,13 +414,16 @@ def unroll(t, expand_sub=True, p="prepare_all", m="measure_all"):
     return [g for c in t[1] for g in unroll(c, expand_sub, p, m)]
 
 
-def used(t, all_qubits, busy=("prepare_all", "measure_all")):
+def used(t, all_qubits, busy=("prepare_all", "measure_all"), idle_prefix="I_"):
     """Set of fundamental (register, index) pairs on which some gate reachable from t acts.
-    Gates named in `busy` (prepare/measure-style definitions) count as all qubits."""
+    Gates named in `busy` (prepare/measure-style definitions) count as all qubits, idle gates
+    (named idle_prefix + parent) as none."""
     k = t[0]
     if k == "g":
         if t[1] in busy:
             return set(all_qubits)
+        if idle_prefix and t[1].startswith(idle_prefix):
+            return set()
         s = set()
         for a in t[2]:
             if a[0] == "q":
@@ -431,5 +434,5 @@ def used(t, all_qubits, busy=("prepare_all", "measure_all")):
     kids = t[2] if k in ("loop", "sub") else t[1]
     s = set()
     for c in kids:
-        s |= used(c, all_qubits, busy)
+        s |= used(c, all_qubits, busy, idle_prefix)
     return s
